@@ -42,9 +42,20 @@ def main():
     except Exception:
         pass
     wt = "/tmp/sv_%s" % re.sub(r"[^A-Za-z0-9]", "_", name)
-    sh("git -C /repo worktree remove --force %s" % wt)
-    rc, out = sh("git -C /repo worktree add -f %s HEAD" % wt)
-    assert rc == 0, out
+    # the author's own worktree (sibling `wt` of the delivery directory) is reused when it holds exactly the delivered
+    # patch on top of the current HEAD and has a build directory: the build below is then incremental
+    reuse = os.path.join(os.path.dirname(os.path.abspath(src.rstrip("/"))), "wt")
+    own = False
+    if os.path.isdir(os.path.join(reuse, "_build")):
+        head_ok = sh("git -C %s rev-parse HEAD" % reuse)[1].strip() == sh("git -C /repo rev-parse HEAD")[1].strip()
+        sh("git checkout -- .", cwd=reuse)
+        clean = sh("git status --porcelain --untracked-files=no", cwd=reuse)[1].strip() == ""
+        if head_ok and clean:
+            wt, own = reuse, True
+    if not own:
+        sh("git -C /repo worktree remove --force %s" % wt)
+        rc, out = sh("git -C /repo worktree add -f %s HEAD" % wt)
+        assert rc == 0, out
     rec = {"name": name, "property": agent_meta.get("property"), "summary": agent_meta.get("summary"),
            "needs_to_manifest": agent_meta.get("needs_to_manifest"), "base_commit": sh("git -C /repo rev-parse --short HEAD")[1].strip(),
            "confirmed": {}, "checks": {}}
@@ -98,6 +109,7 @@ def main():
     finally:
         # replays produced against the scratch tree are not kept
         sh("git -C /repo worktree remove --force %s" % wt)
+        shutil.rmtree(wt, ignore_errors=True)
         sh("git -C /repo worktree prune")
         old = {}
         mp = os.path.join(dst, "meta.json")
